@@ -45,6 +45,7 @@ type cfg struct {
 	Enc   string   `json:"enc"`  // sk | pk
 	Progs int      `json:"progs"`
 	Steps int      `json:"steps"`
+	X     *xopt    `json:"x,omitempty"` // extended configuration (families cfgx/, recv0/, errors2/): see ext.go
 }
 
 func (cf cfg) String() string {
@@ -56,7 +57,11 @@ func (cf cfg) String() string {
 	for i, p := range cf.P {
 		pb[i] = ref.BitLen(p)
 	}
-	return fmt.Sprintf("logN=%d t=%d(%db) Qbits=%v Pbits=%v H=%d mode=%s eval=%s enc=%s", cf.LogN, cf.T, ref.BitLen(cf.T), qb, pb, cf.H, cf.Mode, cf.Eval, cf.Enc)
+	s := fmt.Sprintf("logN=%d t=%d(%db) Qbits=%v Pbits=%v H=%d mode=%s eval=%s enc=%s", cf.LogN, cf.T, ref.BitLen(cf.T), qb, pb, cf.H, cf.Mode, cf.Eval, cf.Enc)
+	if cf.X != nil {
+		s += " x=" + cf.X.String()
+	}
+	return s
 }
 
 // env is the per-case context: real library objects + the facts the oracle needs.
@@ -82,6 +87,13 @@ type env struct {
 	Pprod  *big.Int
 	s1, s2 int64 // exact l1 norms of s and s^2 (the oracle owns the secret key)
 	errB   int64 // worst-case |e| of one error sample
+
+	uL1   int64            // worst-case l1 norm of one sample of the secret distribution (the u of a pk encryption)
+	rlkLP int              // LevelP of the relinearisation key
+	rlkW  int              // BaseTwoDecomposition of the relinearisation key
+	Pkey  *big.Int         // product of the auxiliary primes the relinearisation key uses
+	evs   []*bgv.Evaluator // non-empty: every step draws its evaluator from this list (copies of one base evaluator)
+	noRlk bool             // the evaluator holds no relinearisation key: every relinearisation is a documented error
 }
 
 func bi(u uint64) *big.Int { return new(big.Int).SetUint64(u) }
@@ -121,6 +133,9 @@ func setup(c *eng.Ctx, cf cfg, evk rlwe.EvaluationKeySet, useOwnKeys bool) *env 
 	if cf.H > 0 {
 		pl.Xs = ring.Ternary{H: cf.H}
 	}
+	if cf.X != nil {
+		cf.X.literal(&pl)
+	}
 	var params bgv.Parameters
 	var err error
 	if !c.Try("C05|bgv.NewParametersFromLiteral", func() { params, err = bgv.NewParametersFromLiteral(pl) }) {
@@ -130,16 +145,45 @@ func setup(c *eng.Ctx, cf cfg, evk rlwe.EvaluationKeySet, useOwnKeys bool) *env 
 		c.Violate("C05|bgv.NewParametersFromLiteral|error-on-admissible", fmt.Sprintf("%v: %v", cf, err), cf)
 		return nil
 	}
-	e := &env{c: c, cf: cf, params: params}
-	e.kgen = rlwe.NewKeyGenerator(params)
-	e.sk = e.kgen.GenSecretKeyNew()
-	e.rlk = e.kgen.GenRelinearizationKeyNew(e.sk)
-	if cf.Enc == "pk" {
-		e.enc = rlwe.NewEncryptor(params, e.kgen.GenPublicKeyNew(e.sk))
-	} else {
-		e.enc = rlwe.NewEncryptor(params, e.sk)
+	if cf.X != nil {
+		// parameters obtained through another documented route (re-literal, JSON, binary, bgv.NewParameters)
+		var ok bool
+		if params, ok = cf.X.via(c, cf, pl, params); !ok {
+			return nil
+		}
+		// the oracle's bounds use the primes the parameters actually hold (LogQ/LogP literals)
+		cf.Q, cf.P = params.Q(), params.P()
 	}
-	e.dec = rlwe.NewDecryptor(params, e.sk)
+	e := &env{c: c, cf: cf, params: params}
+	bgvCtors := cf.X != nil && cf.X.Ctors == "bgv"
+	if bgvCtors {
+		e.kgen = bgv.NewKeyGenerator(params)
+	} else {
+		e.kgen = rlwe.NewKeyGenerator(params)
+	}
+	e.sk = e.kgen.GenSecretKeyNew()
+	e.rlkLP, e.rlkW = params.MaxLevelP(), 0
+	if cf.X != nil && cf.X.RlkSet {
+		lp, w := cf.X.RlkLP, cf.X.RlkW
+		if lp > params.MaxLevelP() {
+			lp = params.MaxLevelP()
+		}
+		e.rlkLP, e.rlkW = lp, w
+		e.rlk = e.kgen.GenRelinearizationKeyNew(e.sk, rlwe.EvaluationKeyParameters{LevelP: &lp, BaseTwoDecomposition: &w})
+	} else {
+		e.rlk = e.kgen.GenRelinearizationKeyNew(e.sk)
+	}
+	var encKey rlwe.EncryptionKey = e.sk
+	if cf.Enc == "pk" {
+		encKey = e.kgen.GenPublicKeyNew(e.sk)
+	}
+	if bgvCtors {
+		e.enc = bgv.NewEncryptor(params, encKey)
+		e.dec = bgv.NewDecryptor(params, e.sk)
+	} else {
+		e.enc = rlwe.NewEncryptor(params, encKey)
+		e.dec = rlwe.NewDecryptor(params, e.sk)
+	}
 	e.ecd = bgv.NewEncoder(params)
 	e.t = params.PlaintextModulus()
 	e.tb = bi(e.t)
@@ -153,12 +197,25 @@ func setup(c *eng.Ctx, cf cfg, evk rlwe.EvaluationKeySet, useOwnKeys bool) *env 
 	for _, p := range cf.P {
 		e.Pprod.Mul(e.Pprod, bi(p))
 	}
+	e.Pkey = big.NewInt(1)
+	for i := 0; i <= e.rlkLP && i < len(cf.P); i++ {
+		e.Pkey.Mul(e.Pkey, bi(cf.P[i]))
+	}
 	b, _ := obs.ErrBound(params.Parameters)
 	e.errB = int64(b)
+	sInf, _ := obs.SecretBound(params.Parameters)
+	e.uL1 = int64(e.n) * int64(sInf)
 	e.secretNorms()
 
 	if useOwnKeys {
 		evk = rlwe.NewMemEvaluationKeySet(e.rlk)
+	}
+	if cf.X != nil && cf.X.NoKey != "" {
+		e.noRlk = true
+		evk = nil
+		if cf.X.NoKey == "empty" {
+			evk = rlwe.NewMemEvaluationKeySet(nil)
+		}
 	}
 	wantSI := cf.Mode == "bfv"
 	switch cf.Eval {
@@ -177,6 +234,17 @@ func setup(c *eng.Ctx, cf cfg, evk rlwe.EvaluationKeySet, useOwnKeys bool) *env 
 		})
 	default:
 		e.ev = bgv.NewEvaluator(params, evk, wantSI)
+	}
+	if cf.X != nil && cf.X.Interleave {
+		// copies of one evaluator used in turn on the same data: WithKey shares the buffers of its
+		// receiver, ShallowCopy owns fresh ones; sequential use of any of them must give the same results
+		sc := e.ev.ShallowCopy()
+		e.evs = []*bgv.Evaluator{e.ev, e.ev.WithKey(evk), sc, sc.WithKey(evk)}
+		for _, v := range e.evs {
+			c.Check(v.ScaleInvariant == e.ev.ScaleInvariant, "C05|Evaluator.ShallowCopy|mode-flag-dropped", func() string {
+				return fmt.Sprintf("a copy of the evaluator carries ScaleInvariant=%v (base: %v); %v", v.ScaleInvariant, e.ev.ScaleInvariant, cf)
+			})
+		}
 	}
 	// The model follows the flag the evaluator actually carries (each operation documents its
 	// behaviour in terms of that flag).
@@ -265,17 +333,36 @@ func (e *env) budget(bound *big.Int, level int) bool {
 // (RNS decomposition with auxiliary modulus P): sum over digits of |digit|*N*B divided by P,
 // plus the rounding of the division by P.
 func (e *env) ksBound(level int) *big.Int {
-	alpha := len(e.cf.P)
+	lp, w := e.rlkLP, e.rlkW
 	sum := new(big.Int)
-	for g := 0; g*alpha <= level; g++ {
-		prod := big.NewInt(1)
-		for i := g * alpha; i < (g+1)*alpha && i <= level; i++ {
-			prod.Mul(prod, bi(e.cf.Q[i]))
+	switch {
+	case lp >= 0 && (w == 0 || lp > 0):
+		// RNS digits of lp+1 primes each (a power-of-two base is ignored by keys with more than one auxiliary prime)
+		alpha := lp + 1
+		for g := 0; g*alpha <= level; g++ {
+			prod := big.NewInt(1)
+			for i := g * alpha; i < (g+1)*alpha && i <= level; i++ {
+				prod.Mul(prod, bi(e.cf.Q[i]))
+			}
+			sum.Add(sum, prod.Lsh(prod, 1)) // |digit| <= 2*Q_group (centred lift, one unit of slack)
 		}
-		sum.Add(sum, prod.Lsh(prod, 1)) // |digit| <= 2*Q_group (centred lift, one unit of slack)
+	case w > 0:
+		// every prime is its own RNS digit, cut into ceil(bits(q_i)/w) unsigned digits below 2^w
+		for i := 0; i <= level; i++ {
+			nd := (ref.BitLen(e.cf.Q[i]) + w - 1) / w
+			sum.Add(sum, new(big.Int).Lsh(bI(int64(nd)), uint(w)))
+		}
+	default:
+		// no auxiliary modulus, no power-of-two base: one centred digit per prime (bounded by q_i, not q_i/2)
+		for i := 0; i <= level; i++ {
+			sum.Add(sum, bi(e.cf.Q[i]))
+		}
 	}
 	sum.Mul(sum, bI(int64(e.n)*e.errB))
-	sum = ceilDiv(sum, e.Pprod)
+	if lp < 0 {
+		return sum.Add(sum, big.NewInt(1))
+	}
+	sum = ceilDiv(sum, e.Pkey)
 	return sum.Add(sum, bI((1+e.s1)/2+2))
 }
 
@@ -474,13 +561,15 @@ func cases(tier string, seed int64) []eng.Case {
 		id := fmt.Sprintf("errors/%03d/logN%d/t%db/q%d/%s", i, c.LogN, ref.BitLen(c.T), len(c.Q), c.Mode)
 		out = append(out, eng.Case{ID: id, Sig: "C05|errors", Desc: c, Run: func(ctx *eng.Ctx) { runErrors(ctx, c) }})
 	}
+	// extended families (own random stream: the cases above are unchanged by them)
+	out = append(out, xcases(tier, seed)...)
 	return out
 }
 
 func init() {
 	eng.Register(&eng.Monitor{
 		ID: "C05", Level: "exploration",
-		Rule:  "cases = seeded (logN 4..11, plaintext modulus of 8..60 bits incl. cyclotomic order < 2N, 2..8 Q primes of 20..61 bits (Q[0] > t always; in 5 of 6 configurations every prime > t, in the others later primes may be smaller than t), 1..2 P primes, default/sparse ternary secret, BGV or BFV evaluator obtained by NewEvaluator/ShallowCopy/WithKey, sk or pk encryption); each case runs 2..6 seeded straight-line programs of up to 16 (quick) / 24 (thorough) steps over a pool of ciphertexts; every step is one public bgv.Evaluator call and is judged on its own (model over Z_t, recorded level/degree/scale, Decode(Decrypt(.)), measured noise vs one-step worst-case bound), so the failing step is the shrunk witness. A step is only executed when its worst-case noise bound, computed from the measured noise of its operands, is below Q_level/4. distinct key = (mode, gap>1, normalised program text = sequence of method(operand kind, receiver placement, scale-equal?, level/degree relations)); non-trivial = multiplicative depth >= 2 or >= 2 different operand kinds or at least one step with unequal operand scales. 'errors' cases call every documented failure condition and require an error (no panic, no value).",
+		Rule:  "cases = seeded (logN 4..11, plaintext modulus of 8..60 bits incl. cyclotomic order < 2N, 2..8 Q primes of 20..61 bits (Q[0] > t always; in 5 of 6 configurations every prime > t, in the others later primes may be smaller than t), 1..2 P primes, default/sparse ternary secret, BGV or BFV evaluator obtained by NewEvaluator/ShallowCopy/WithKey, sk or pk encryption); each case runs 2..6 seeded straight-line programs of up to 16 (quick) / 24 (thorough) steps over a pool of ciphertexts; every step is one public bgv.Evaluator call and is judged on its own (model over Z_t, recorded level/degree/scale, Decode(Decrypt(.)), measured noise vs one-step worst-case bound), so the failing step is the shrunk witness. A step is only executed when its worst-case noise bound, computed from the measured noise of its operands, is below Q_level/4. distinct key = (mode, gap>1, normalised program text = sequence of method(operand kind, receiver placement, scale-equal?, level/degree relations)); non-trivial = multiplicative depth >= 2 or >= 2 different operand kinds or at least one step with unequal operand scales. 'errors' cases call every documented failure condition and require an error (no panic, no value). Extended families (own random stream): 'cfgx' = the same program engine under configurations outside the draw above, 15 variants in turn: single modulus, no auxiliary modulus, 3..5 auxiliary primes, 9..12 Q primes, Q and P taken from the 61-bit primes right below 2^61 (the ones bgv would take for its extended basis), Q[0] = smallest NTT prime above t, ring degree 16/32 with a plaintext ring of degree 8, LogQ/LogP literals, parameters re-obtained through ParametersLiteral()/JSON/binary/bgv.NewParameters with the bgv.New* constructor wrappers, error distribution (tight/unit/wide Gaussian, ternary P/H), secret distribution (ternary P=0.5/0.05, H=1, H=N, Gaussian), relinearisation key at LevelP=-1 / LevelP=0 of 2 / power-of-two base 1..30, four copies of one evaluator (WithKey/ShallowCopy) used in turn + operands passed as *rlwe.Element + fresh receivers with stale metadata (IsNTT/IsBatched/LogDimensions) + DropLevel(0), evaluator without relinearisation key (every relinearisation must be refused, the program goes on); every verified result also has its IsNTT/IsBatched/IsMontgomery/LogDimensions compared with what InitOutput*Op documents. 'recv0' = every method x operand kind with a receiver of degree 0 (correct result, or an error where Mul/MulRelin document one; never a panic). 'scale' = rlwe.Scale Mul/Div/Cmp/Max/Min/Uint64 modulo t (reduced, unreduced and modulus-less arguments) and bgv.MulScaleInvariant at every level against exact integers. 'errors2' = missing key on WithKey/ShallowCopy copies and on a key set holding only a Galois key, plaintext operand outside the NTT domain, two degree-0 operands, level 0 with a single modulus and after consuming every level, degree > 2 on the remaining entry points.",
 		Cases: cases,
 		Assumptions: []string{
 			"model arithmetic (bits.Mul64/Div64, math/big) is correct",
@@ -489,6 +578,8 @@ func init() {
 			"scalars and vectors follow the natural reading where the documentation is silent: scalar/vector Add, Sub, Mul keep op0's scale; MulThenAdd with a scalar/vector keeps the receiver's scale; the result level is min over operands and receiver, the degree max (Mul: sum / 1 after relinearisation)",
 			"after an automatic scale matching (Add/Sub/MulThenAdd with unequal scales, MatchScalesAndLevel) any recorded unit scale is accepted; exactness of Decode with that recorded scale decides",
 			"float-assisted basis extensions (ring.ModUpExact) are treated as exact away from the Q/2 boundary (probability of a miss ~2^-50 per coefficient)",
+			"key-switching noise of a relinearisation key with LevelP=lp and power-of-two base w is bounded as in C04: digits of lp+1 primes (|digit| <= 2*Q_group) divided by the key's P; w>0 with lp<=0: ceil(bits(q_i)/w) digits below 2^w per prime; lp=-1,w=0: one digit below q_i per prime and no division",
+			"a call refused with an error may leave anything in its receiver (C05 does not speak about it): the model drops a receiver whose value, level, degree or recorded scale changed",
 		},
 	})
 }
